@@ -60,6 +60,8 @@ type gnode struct {
 	tomb map[string]bool
 	// the same for the partition ring: "p<id>" / owner id -> timestamp of the tombstone held
 	ptomb map[string]int64
+	// firstVal: entry id -> timestamp in the first value this node (incarnation) ever stored under the ring key
+	firstVal map[string]int64
 }
 
 type packet struct {
@@ -151,13 +153,24 @@ func (w *gworld) boot(nd *gnode) {
 	nd.lastAck = map[string]int64{}
 	nd.tomb = map[string]bool{}
 	nd.ptomb = map[string]int64{}
+	nd.firstVal = nil
 	nd.watchers = nil
 }
 
 // ---- canonical views ---------------------------------------------------------------------------
 
+// canonInst renders the token list as a set (sorted, without repetitions): the order and multiplicity of what a
+// node stores is the subject of the per-node oracle tokens-not-sorted-distinct, not of the comparisons between nodes.
 func canonInst(id string, e ring.InstanceDesc) string {
-	return fmt.Sprintf("%s{%v ts=%d tok=%v z=%s ro=%v}", id, e.State, e.Timestamp, e.Tokens, e.Zone, e.ReadOnly)
+	toks := append([]uint32(nil), e.Tokens...)
+	sort.Slice(toks, func(i, j int) bool { return toks[i] < toks[j] })
+	out := toks[:0]
+	for i, t := range toks {
+		if i == 0 || t != toks[i-1] {
+			out = append(out, t)
+		}
+	}
+	return fmt.Sprintf("%s{%v ts=%d tok=%v z=%s ro=%v}", id, e.State, e.Timestamp, out, e.Zone, e.ReadOnly)
 }
 
 func canonDesc(d *ring.Desc, withTombstones bool) string {
